@@ -22,7 +22,14 @@ class C01(Prop):
 
     def generate(self, rng, tier, idx):
         mode = "real" if rng.random() < 0.3 else "tagged"
-        plan = gen_session(rng, tier, peer_mode=mode, nsolves=rng.choice([1, 1, 2]))
+        deco = None
+        if rng.random() < 0.35:
+            deco = ["extra_metric"] * rng.choice([1, 2]) + [rng.choice(["lmi_sym", "eq_cons", "func_cons", "lmi_func"])]
+        plan = gen_session(rng, tier, peer_mode=mode, nsolves=rng.choice([1, 1, 2]), decorations=deco,
+                           allow_heuristic=(rng.random() < 0.3))
+        for op in plan["ops"]:
+            if op["op"] == "solve" and op["cfg"].get("heuristic"):
+                op["cfg"]["eig"] = 0.05
         for op in plan["ops"]:
             if op["op"] == "solve" and mode == "real":
                 op["peer"]["solver"] = "CLARABEL"
